@@ -252,6 +252,8 @@ XDMA_CONFIGS = [
     ("rescale", [("nn", 1, "DUc"), ("nn", 1, "cm")]),
     ("plain", [("n", 1, ""), ("n", 1, "")]),
     ("allreader", [("n", 1, "PALDUc"), ("n", 1, "Stcm")]),
+    # temporal dims flagged for internal reuse: the bound collapses to 1 ONLY for a pattern that really repeats (stride 0)
+    ("reuse", [("nr", 1, "c"), ("rn", 1, "cm")]),
 ]
 
 
@@ -260,7 +262,8 @@ class XDMA_setup_vals_match_fields:
     target = "snaxc.accelerators.snax_xdma.SNAXXDMAAccelerator._generate_stream_setup_vals"
     shapes = [dict(config=c, kernel=k, operands=o) for c, _ in XDMA_CONFIGS for k in ("nogeneric", "add_i32", "mul_i32", "rescale_down")
               for o in (("ptr", "ptr"), ("const", "ptr"), ("ptr", "const"))]
-    quick = lambda sh: sh["config"] in ("default", "nomask", "rescale", "bytemask") and (sh["operands"] != ("ptr", "const") or sh["config"] == "default")
+    quick = lambda sh: (sh["config"] in ("default", "nomask", "rescale", "bytemask") and (sh["operands"] != ("ptr", "const") or sh["config"] == "default")) or (
+        sh["config"] == "reuse" and sh["operands"] == ("ptr", "ptr") and sh["kernel"] in ("nogeneric", "add_i32"))
     total = True
     compare_ret = False
 
